@@ -328,9 +328,9 @@ private:
 
 class DeferredWriter {
 public:
-    void deferred_write(File&& file, const std::string& destination_path, bool is_new_name, std::function<void(const std::string&)> prepare_callback, std::function<void(const std::string&)> permission_callback)
+    void deferred_write(File&& file, const std::string& destination_path, bool is_new_name, filesystem::perms permissions_after, std::function<void(const std::string&)> prepare_callback, std::function<void(const std::string&)> permission_callback)
     {
-        m_deferred_writes.push_back(FileWrite { std::move(file), destination_path, is_new_name, std::move(prepare_callback), std::move(permission_callback) });
+        m_deferred_writes.push_back(FileWrite { std::move(file), destination_path, is_new_name, permissions_after, std::move(prepare_callback), std::move(permission_callback) });
     }
 
     // The source of a rename may only be removed once its content has been written to the new name.
@@ -352,6 +352,16 @@ public:
             return &it->source;
         }
         return nullptr;
+    }
+
+    // The permissions which the last deferred write to this path is going to leave it with, if there is one.
+    filesystem::perms pending_permissions_of(const std::string& path) const
+    {
+        for (auto it = m_deferred_writes.rbegin(); it != m_deferred_writes.rend(); ++it) {
+            if (it->destination_path == path)
+                return it->permissions_after;
+        }
+        return filesystem::perms::unknown;
     }
 
     bool has_deferred_write_to(const std::string& path) const
@@ -385,6 +395,7 @@ private:
         File source;
         std::string destination_path;
         bool is_new_name;
+        filesystem::perms permissions_after;
         std::function<void(const std::string&)> prepare_callback;
         std::function<void(const std::string&)> permission_callback;
     };
@@ -438,10 +449,13 @@ struct PermissionResult {
     bool had_failure { false };
 };
 
-static PermissionResult fix_permissions_if_needed(std::ostream& out, const Options& options, const std::string& output_file)
+static PermissionResult fix_permissions_if_needed(std::ostream& out, const Options& options, const std::string& output_file, const DeferredWriter& deferred_writer)
 {
     PermissionResult result;
-    result.old_permissions = filesystem::get_permissions(output_file);
+    // An earlier patch of this run may have given the file new permissions which are yet to be written out along with it.
+    result.old_permissions = deferred_writer.pending_permissions_of(output_file);
+    if (result.old_permissions == filesystem::perms::unknown)
+        result.old_permissions = filesystem::get_permissions(output_file);
     const auto write_perm_mask = filesystem::perms::group_write | filesystem::perms::owner_write | filesystem::perms::others_write;
     result.needed_to_fix_permissions = (result.old_permissions & write_perm_mask) == filesystem::perms::none;
 
@@ -510,7 +524,8 @@ void write_patched_result_to_file(const Patch& patch, const std::string& output_
                 backup->make_backup_for(output_file_path);
             filesystem::symlink(symlink_target, output_file_path);
         } else {
-            deferred_writer.deferred_write(std::move(patched_file), output_file_path, patch.operation == Operation::Rename || patch.operation == Operation::Copy, std::move(prepare_callback), std::move(permission_callback));
+            const auto permissions_after = new_mode_copy != 0 ? static_cast<filesystem::perms>(new_mode_copy) & filesystem::perms::mask : permission_result.old_permissions;
+            deferred_writer.deferred_write(std::move(patched_file), output_file_path, patch.operation == Operation::Rename || patch.operation == Operation::Copy, permissions_after, std::move(prepare_callback), std::move(permission_callback));
         }
     } else {
         prepare_callback(output_file_path);
@@ -622,7 +637,7 @@ int process_patch(const Options& options)
             continue;
         }
 
-        auto permission_result = fix_permissions_if_needed(out, options, output_file);
+        auto permission_result = fix_permissions_if_needed(out, options, output_file, deferred_writer);
         if (permission_result.had_failure) {
             if (should_parse_body)
                 parser.parse_patch_body(patch);
